@@ -60,29 +60,36 @@ harness! {
 // w is "exactly the specified set, each move exactly once".  The sink can also refuse the k-th
 // push (symbolic k), which checks the early-exit behaviour that has_legal_moves relies on.
 // ------------------------------------------------------------------------------------------------
-pub struct WSink { pub w: Move, pub hits: u32, pub n: u32, pub fail_at: u32, pub failed: bool, pub pushed_after_fail: bool }
-impl WSink {
-    pub fn new(w: Move) -> WSink {
-        let fail_at = vk::any_u32();
-        WSink { w, hits: 0, n: 0, fail_at, failed: false, pushed_after_fail: false }
-    }
-}
+/// exactness sink: cannot refuse (Err = Infallible, so `?` has no exit edge), counts pushes of w
+pub struct WSink { pub w: Move, pub hits: u32 }
+impl WSink { pub fn new(w: Move) -> WSink { WSink { w, hits: 0 } } }
 impl MaybeMovePush for WSink {
-    type Err = ();
-    fn push(&mut self, m: Move) -> Result<(), ()> {
-        if self.failed { self.pushed_after_fail = true; }
-        if self.n == self.fail_at { self.failed = true; return Err(()); }
-        self.n += 1;
+    type Err = core::convert::Infallible;
+    fn push(&mut self, m: Move) -> Result<(), core::convert::Infallible> {
         if m == self.w { self.hits += 1; }
         Ok(())
     }
 }
-/// after a run: if the sink never refused, w was pushed exactly `want` times; if it refused, the
-/// generator returned Err at once (nothing was pushed afterwards) and w was pushed at most once
-fn check_sink(s: &WSink, res: Result<(), ()>, want: bool) {
-    assert!(!s.pushed_after_fail);
-    assert!(res.is_err() == s.failed);
-    if !s.failed { assert!(s.hits == if want { 1 } else { 0 }); } else { assert!(s.hits <= 1); if s.hits == 1 { assert!(want); } }
+/// early-exit sink: refuses exactly the witness move.  The generators are generic in the sink and
+/// can only call `push`, so up to the first refusal a run is the same for every sink; "Err iff
+/// the refused move is generated, and nothing is pushed after the refusal" for an arbitrary
+/// single refused move therefore gives, for any sink: Err iff it refuses some generated move.
+pub struct RSink { pub w: Move, pub refused: bool, pub pushed_after: bool }
+impl RSink { pub fn new(w: Move) -> RSink { RSink { w, refused: false, pushed_after: false } } }
+impl MaybeMovePush for RSink {
+    type Err = ();
+    fn push(&mut self, m: Move) -> Result<(), ()> {
+        if self.refused { self.pushed_after = true; }
+        if m == self.w { self.refused = true; return Err(()); }
+        Ok(())
+    }
+}
+fn check_sink(s: &WSink, _res: Result<(), core::convert::Infallible>, want: bool) {
+    assert!(s.hits == if want { 1 } else { 0 });
+}
+fn check_rsink(s: &RSink, res: Result<(), ()>, want: bool) {
+    assert!(res.is_err() == want);
+    assert!(s.refused == want && !s.pushed_after);
 }
 fn target_class(b: &Board, w: rs::RMove) -> (bool, bool) {
     // (is a non-capture, is a capture) by the property's definition: destination occupied or en passant
@@ -114,13 +121,55 @@ macro_rules! gen_piece {
                 let (noncap, cap) = target_class(&b, rw);
                 let want = rs::ref_pseudo(&b.r, rw) && rw.kind == rs::K_SIMPLE && (($simple && noncap) || ($capture && cap));
                 check_sink(&sink, res, want);
-                cover!(want && !sink.failed);
-                cover!(sink.failed);
+                cover!(want);
+                cover!(!want);
+            }
+        }
+    };
+}
+macro_rules! gen_exit {
+    ($name:ident, $cval:expr, $white:expr, $piece:expr, $unwind:expr, $pred:expr, $($call:tt)*) => {
+        harness! {
+            #[kani::unwind($unwind)]
+            #[kani::stub(crate::attack::rook, crate::verif_anyboard::stub_rook)]
+            #[kani::stub(crate::attack::bishop, crate::verif_anyboard::stub_bishop)]
+            fn $name() {
+                let b = ab::any_board_side(if $white { Color::White } else { Color::Black });
+                ab::assume_at_most_16(&b);
+                ab::assume_no_backrank_pawns(&b);
+                ab::assume_ep_consistent(&b);
+                let w = any_w(rs::code($white, $piece));
+                let rw = rs::rmove(w);
+                let mut sink = RSink::new(w);
+                let res = MoveGenImpl::new(&b, &mut sink, $cval).$($call)*;
+                let pred: fn(rs::RMove) -> bool = $pred;
+                let want = rs::ref_pseudo(&b.r, rw) && pred(rw);
+                check_rsink(&sink, res, want);
+                cover!(want);
+                cover!(!want);
             }
         }
     };
 }
 use generic::{Black as GB, White as GW};
+// early exit (C07 (c)), for exactly the eight classes gen_for_has_legal_moves runs
+gen_exit!(exit_knight_w, GW, true, rs::KNIGHT, 17, |m| m.kind == rs::K_SIMPLE, gen_knight::<true, true>());
+gen_exit!(exit_knight_b, GB, false, rs::KNIGHT, 17, |m| m.kind == rs::K_SIMPLE, gen_knight::<true, true>());
+gen_exit!(exit_king_w, GW, true, rs::KING, 17, |m| m.kind == rs::K_SIMPLE, gen_king::<true, true>());
+gen_exit!(exit_king_b, GB, false, rs::KING, 17, |m| m.kind == rs::K_SIMPLE, gen_king::<true, true>());
+gen_exit!(exit_bishop_w, GW, true, rs::BISHOP, 17, |m| m.kind == rs::K_SIMPLE, do_gen_brq::<true, true, true, false>(Piece::Bishop));
+gen_exit!(exit_bishop_b, GB, false, rs::BISHOP, 17, |m| m.kind == rs::K_SIMPLE, do_gen_brq::<true, true, true, false>(Piece::Bishop));
+gen_exit!(exit_rook_w, GW, true, rs::ROOK, 17, |m| m.kind == rs::K_SIMPLE, do_gen_brq::<true, true, false, true>(Piece::Rook));
+gen_exit!(exit_rook_b, GB, false, rs::ROOK, 17, |m| m.kind == rs::K_SIMPLE, do_gen_brq::<true, true, false, true>(Piece::Rook));
+gen_exit!(exit_queen_w, GW, true, rs::QUEEN, 28, |m| m.kind == rs::K_SIMPLE, do_gen_brq::<true, true, true, true>(Piece::Queen));
+gen_exit!(exit_queen_b, GB, false, rs::QUEEN, 28, |m| m.kind == rs::K_SIMPLE, do_gen_brq::<true, true, true, true>(Piece::Queen));
+gen_exit!(exit_pawn_simple_w, GW, true, rs::PAWN, 17, |m| m.src % 8 == m.dst % 8 && m.kind != rs::K_EP, gen_pawn_simple::<true, true>());
+gen_exit!(exit_pawn_simple_b, GB, false, rs::PAWN, 17, |m| m.src % 8 == m.dst % 8 && m.kind != rs::K_EP, gen_pawn_simple::<true, true>());
+gen_exit!(exit_pawn_capture_w, GW, true, rs::PAWN, 17, |m| m.src % 8 != m.dst % 8 && (m.kind == rs::K_SIMPLE || rs::is_promo(m.kind)), gen_pawn_capture());
+gen_exit!(exit_pawn_capture_b, GB, false, rs::PAWN, 17, |m| m.src % 8 != m.dst % 8 && (m.kind == rs::K_SIMPLE || rs::is_promo(m.kind)), gen_pawn_capture());
+gen_exit!(exit_pawn_enpassant_w, GW, true, rs::PAWN, 17, |m| m.kind == rs::K_EP, gen_pawn_enpassant());
+gen_exit!(exit_pawn_enpassant_b, GB, false, rs::PAWN, 17, |m| m.kind == rs::K_EP, gen_pawn_enpassant());
+
 // all = (true, true); capture-only = (false, true); non-capture = (true, false); (false, false) is
 // what gen_simple_promote passes
 gen_piece!(gen_knight_tt_w, GW, true, rs::KNIGHT, true, true, 17, gen_knight::<true, true>());
@@ -237,13 +286,13 @@ harness! {
         ab::assume_one_king_each(&b);
         let k = vk::any_u8(); vk::assume(1 <= k && k < 10);
         let mv = ab::any_move_of_kind(rs::mk_kind(k));
-        let mut sink = WSink::new(mv);
         let expect = Checker::new(&b, DefaultPrechecker::new(&b)).is_legal(mv);
-        let mut f = LegalFilter::new(&b, &mut sink);
-        let r = f.push(mv);
-        assert!(sink.n + if sink.failed { 1 } else { 0 } == if expect { 1 } else { 0 });
-        assert!(r.is_err() == sink.failed);
-        if !sink.failed { assert!(sink.hits == if expect { 1 } else { 0 }); }
+        let mut sink = WSink::new(mv);
+        { let mut f = LegalFilter::new(&b, &mut sink); let _ = f.push(mv); }
+        assert!(sink.hits == if expect { 1 } else { 0 });
+        let mut rsink = RSink::new(mv);
+        let r = { let mut f = LegalFilter::new(&b, &mut rsink); f.push(mv) };
+        assert!(r.is_err() == expect && rsink.refused == expect);
         let mut e = ErrOnFirst;
         assert!(MaybeMovePush::push(&mut e, mv).is_err());
     }
